@@ -73,6 +73,7 @@ structure Cfg where
   sigTerm : Nat
   sigKill : Nat
   ioNoValue : List Int         -- ioclasses that accept no value (IOPRIO_CLASS_IDLE, IOPRIO_CLASS_NONE)
+  affinityAll : Nat            -- `cpu_affinity([])` on Linux asks for `range(affinityAll)` (every CPU a cpu_set_t holds)
   deriving Repr
 
 /-- a `psutil.Process` object -/
@@ -251,6 +252,7 @@ def setterArgs (cfg : Cfg) (pid : Nat) : SetKind → List Int → Option (List I
     if pid == 0 && cfg.rlimitPid0Refused then none          -- "can't use prlimit() against PID 0 process"
     else if lim.length ≠ 2 then none                        -- "second argument must be a (soft, hard) tuple"
     else some (r :: lim)
+  | .affinity, [] => some ((List.range cfg.affinityAll).map Int.ofNat)   -- empty sequence: `cpus = range(1024)`
   | .affinity, c :: cs => some (canonSet (c :: cs))
   | _, _ => none                                            -- not a call shape the harness produces
 
